@@ -40,7 +40,7 @@ GRID = [0, 0, 0, 0.5, 0.5, 1, 1, 2]
 
 
 class Twin:
-    """payload that is equal to every other Twin, hashes alike and is falsy: streams must treat
+    """payload that is equal to everything (like mock.ANY), hashes alike and is falsy: streams must treat
     messages as opaque objects (identity), never compare, deduplicate or truth-test them"""
     __slots__ = ('ident',)
 
@@ -48,7 +48,10 @@ class Twin:
         self.ident = ident
 
     def __eq__(self, other):
-        return isinstance(other, Twin)
+        return True         # ... equal to anything at all, private end markers included
+
+    def __ne__(self, other):
+        return False
 
     def __hash__(self):
         return 0
